@@ -6,6 +6,7 @@ mod c02;
 mod c03;
 mod c04;
 mod c05;
+mod c06;
 mod c07;
 mod c11;
 mod c12;
@@ -39,6 +40,7 @@ fn main() {
         "C03" => c03::run(&cli, &rep),
         "C04" => c04::run(&cli, &rep),
         "C05" => c05::run(&cli, &rep),
+        "C06" => c06::run(&cli, &rep),
         "C07" => c07::run(&cli, &rep),
         "C11" => c11::run(&cli, &rep),
         "debug-bcj2" => {
